@@ -382,9 +382,10 @@ func (rw *rewriter) recvExprs(f *ast.File) {
 		if call, ok := n.(*ast.CallExpr); ok {
 			if sel, ok := call.Fun.(*ast.SelectorExpr); ok {
 				if si := rw.info.Selections[sel]; si != nil {
-					if fn, ok := si.Obj().(*types.Func); ok && fn.Pkg() != nil && fn.Pkg().Path() == "time" {
+					if fn, ok := si.Obj().(*types.Func); ok && fn.Pkg() != nil && (fn.Pkg().Path() == "time" || fn.Pkg().Path() == "sync") {
 						name := map[string]string{"(*time.Timer).Stop": "TimerStop", "(*time.Timer).Reset": "TimerReset",
-							"(*time.Ticker).Stop": "TickerStop", "(*time.Ticker).Reset": "TickerReset"}[fn.FullName()]
+							"(*time.Ticker).Stop": "TickerStop", "(*time.Ticker).Reset": "TickerReset",
+							"(*sync.WaitGroup).Add": "WGAdd", "(*sync.WaitGroup).Done": "WGDone", "(*sync.WaitGroup).Wait": "WGWait"}[fn.FullName()]
 						if name != "" {
 							recv := sel.X
 							if _, isPtr := rw.info.TypeOf(recv).(*types.Pointer); !isPtr {
